@@ -19,6 +19,7 @@
 #include <cctype>
 #include <cstdint>
 #include <string>
+#include <type_traits>
 #include <utility>
 
 #include "runtime/cpp/emboss_defines.h"
@@ -59,12 +60,12 @@ class EnumView final {
   // TODO(bolms): Here and in CouldWriteValue(), the static_casts to ValueType
   // rely on implementation-defined behavior when ValueType is signed.
   ValueType Read() const {
-    ValueType result = static_cast<ValueType>(buffer_.ReadUInt());
+    ValueType result = ConvertToValue(buffer_.ReadUInt());
     EMBOSS_CHECK(Parameters::ValueIsOk(result));
     return result;
   }
   ValueType UncheckedRead() const {
-    return static_cast<ValueType>(buffer_.UncheckedReadUInt());
+    return ConvertToValue(buffer_.UncheckedReadUInt());
   }
   void Write(ValueType value) const {
     const bool result = TryToWrite(value);
@@ -74,33 +75,19 @@ class EnumView final {
   bool TryToWrite(ValueType value) const {
     if (!CouldWriteValue(value)) return false;
     if (!IsComplete()) return false;
-    buffer_.WriteUInt(static_cast<typename BitViewType::ValueType>(value));
+    buffer_.WriteUInt(ConvertToBits(value));
     return true;
   }
   static constexpr bool CouldWriteValue(ValueType value) {
-    // The value can be written if:
-    //
-    // a) it can fit in BitViewType::ValueType (verified by casting to
-    //    BitViewType::ValueType and back, and making sure that the value is
-    //    unchanged)
-    //
-    // and either:
-    //
-    // b1) the field size is large enough to hold all values, or
-    // b2) the value is less than 2**(field size in bits)
-    return value == static_cast<ValueType>(
-                        static_cast<typename BitViewType::ValueType>(value)) &&
-           ((Parameters::kBits ==
-             sizeof(typename BitViewType::ValueType) * 8) ||
-            (static_cast<typename BitViewType::ValueType>(value) <
-             ((static_cast<typename BitViewType::ValueType>(1)
-               << (Parameters::kBits - 1))
-              << 1))) &&
+    // The value can be written if storing it in the field's bits and reading
+    // it back gives the same value: for an unsigned enum, if it is less than
+    // 2**(field size in bits); for a signed enum, if it is a
+    // (field size in bits)-bit two's complement number.
+    return ConvertToValue(ConvertToBits(value)) == value &&
            Parameters::ValueIsOk(value);
   }
   void UncheckedWrite(ValueType value) const {
-    buffer_.UncheckedWriteUInt(
-        static_cast<typename BitViewType::ValueType>(value));
+    buffer_.UncheckedWriteUInt(ConvertToBits(value));
   }
 
   template <typename OtherView>
@@ -150,6 +137,42 @@ class EnumView final {
   static constexpr int SizeInBits() { return Parameters::kBits; }
 
  private:
+  using BitsType = typename BitViewType::ValueType;
+  using UnderlyingType = typename ::std::underlying_type<ValueType>::type;
+
+  // A signed enum in a field narrower than its underlying type is a two's
+  // complement number at the width of the field, like Int.
+  static constexpr bool kSignExtend =
+      ::std::is_signed<UnderlyingType>::value &&
+      Parameters::kBits < sizeof(UnderlyingType) * 8;
+
+  // TODO(bolms): When the field is as wide as a signed underlying type, the
+  // static_cast to UnderlyingType relies on implementation-defined behavior.
+  static constexpr ValueType ConvertToValue(BitsType bits) {
+    return static_cast<ValueType>(
+        (kSignExtend && ((bits >> (Parameters::kBits - 1)) & 1))
+            // Subtract 2**kBits in two halves, which cannot overflow.
+            ? static_cast<UnderlyingType>(
+                  static_cast<UnderlyingType>(bits) -
+                  (static_cast<UnderlyingType>(1) << (Parameters::kBits - 1)) -
+                  (static_cast<UnderlyingType>(1) << (Parameters::kBits - 1)))
+            : static_cast<UnderlyingType>(bits));
+  }
+
+  // The low kBits bits of the (two's complement) representation of value.
+  static constexpr BitsType ConvertToBits(ValueType value) {
+    return static_cast<BitsType>(
+        static_cast<BitsType>(
+            static_cast<typename ::std::make_unsigned<UnderlyingType>::type>(
+                static_cast<UnderlyingType>(value))) &
+        (Parameters::kBits == sizeof(BitsType) * 8
+             ? static_cast<BitsType>(~static_cast<BitsType>(0))
+             : static_cast<BitsType>(
+                   (static_cast<BitsType>(1)
+                    << (Parameters::kBits % (sizeof(BitsType) * 8))) -
+                   1)));
+  }
+
   BitViewType buffer_;
 };
 
